@@ -198,6 +198,10 @@ def handle (op : String) (args : List String) : Option String :=
     | some v' => pure ("some " ++ strHex (renderJ v'))
     | none => pure "none"
   | "dimaware", [] => pure (boolStr Gen.postProcessDimAware)
+  | "nodup", [members] => do
+    -- the compile-time duplicate-output-name check on one member list
+    let ms ← runP pParams members
+    pure (boolStr (noDupNames ms []))
   | _, _ => none
 
 end Driver.C13
